@@ -22,7 +22,7 @@ func c19Value(r *rand.Rand, idx int) any {
 		}
 		return later[r.Intn(len(later))]
 	}
-	switch r.Intn(14) {
+	switch r.Intn(15) {
 	case 10: // a longer look-alike key (or a default form) of the same key first, then the plain mention
 		k := pick()
 		return []string{"${" + k + "2},${" + k + "}", "${" + k + ":d},${" + k + "}", "${" + k + ".x}${" + k + "}", "${" + k + "}${" + k + "2}"}[r.Intn(4)]
@@ -31,6 +31,8 @@ func c19Value(r *rand.Rand, idx int) any {
 	case 12: // three mentions with text in between, the same key first and last
 		k := pick()
 		return "${" + k + "} ${" + pick() + "} ${" + k + "}"
+	case 14: // a closing brace before the first placeholder
+		return []string{"/api/{v}/${" + pick() + "}", "a}b${zz}", "}${nope.x}", "{}${" + pick() + "}"}[r.Intn(4)]
 	case 13: // placeholder-like noise
 		return []string{"$", "${", "${}", "}${", "$${" + pick() + "}", "${" + pick() + "}}"}[r.Intn(6)]
 	case 0:
@@ -160,7 +162,16 @@ func c19Dep(r *rand.Rand) Case {
 			for _, x := range refs {
 				rd = append(rd, x.build())
 			}
-			rep := analytics.DefaultDependencyResolver().Resolve(src.build(), rd...)
+			resolver := analytics.DefaultDependencyResolver()
+			if i%2 == 1 {
+				// a resolver is immutable once built: re-configuring its builder afterwards must not reach it
+				b := analytics.NewDependencyResolverBuilder()
+				resolver = b.Build()
+				b.PlaceholderMatcher(func(string) dom.SearchValueFunc { return func(any) bool { return false } })
+				b.OnPlaceholderEncountered(func(string, dom.Coordinates) { panic("callback of a later configuration") })
+				_ = b.Build()
+			}
+			rep := resolver.Resolve(src.build(), rd...)
 			nm := normMap(rep.Map)
 			if i == 0 {
 				first, firstMap = rep, nm
@@ -214,7 +225,13 @@ func c19Ph(r *rand.Rand) Case {
 	var fail []string
 	pn := guard(func() {
 		for i := 0; i < 20; i++ {
-			rep := analytics.NewPlaceholderResolverBuilder().WithKeyFilter(pred).Build().Resolve(ov.build())
+			pb := analytics.NewPlaceholderResolverBuilder().WithKeyFilter(pred)
+			presolver := pb.Build()
+			if i%2 == 1 {
+				pb.WithKeyFilter(func(string) bool { return false }) // must not reach the resolver built before
+				_ = pb.Build()
+			}
+			rep := presolver.Resolve(ov.build())
 			nc := normMap(rep.Coordinates)
 			if i == 0 {
 				first, firstCo = rep, nc
@@ -247,7 +264,20 @@ func c19Impact(r *rand.Rand) Case {
 	var fail []string
 	pn := guard(func() {
 		for i := 0; i < 5; i++ {
-			m := analytics.NewImpactAnalysisBuilder().Build().ResolveOverlayDocument(ov.build(), keys)
+			ia := analytics.NewImpactAnalysisBuilder().Build()
+			var m map[string]dom.Coordinates
+			if i%2 == 0 || len(ov.names) == 0 {
+				m = ia.ResolveOverlayDocument(ov.build(), keys)
+			} else {
+				// through a document set that changes between two questions put to ONE analysis object
+				ds := analytics.NewDocumentSet()
+				_ = ds.AddDocument(ov.names[0], dom.Builder().Container())
+				_ = ia.ResolveDocumentSet(ds, keys)
+				for li, n := range ov.names {
+					_ = ds.AddDocument(n, anyToContainer(ov.layers[li]))
+				}
+				m = ia.ResolveDocumentSet(ds, keys)
+			}
 			nm := normMap(m)
 			if i == 0 {
 				res = nm
@@ -266,7 +296,7 @@ func c19Impact(r *rand.Rand) Case {
 func init() {
 	register(&Prop{
 		ID:   "C19",
-		Rule: "overlays of 1-3 layers over a pool of 5 leaf keys (a, b, c.d, e, f.g); string values are templates mentioning later pool keys (acyclic), unknown keys, defaults, repeated mentions, unterminated placeholders, defaults containing placeholders, look-alike keys and default forms before a plain mention, adjacent placeholders (unknown first), placeholder-like noise; plus ints/bools/plain strings. kinds: dependency (source + 0-2 reference overlays; 20 repeated runs must give equal reports; AllKeys = OrphanKeys ⊎ keys(Map)), placeholder (key filters: all / prefix c / not a; 20 repeated runs), impact (requested key subsets incl. an unknown key). Sorted fields compared exactly, coordinate lists as multisets. Non-trivial: some value mentions >= 2 keys. Distinct by Gallina term.",
+		Rule: "overlays of 1-3 layers over a pool of 5 leaf keys (a, b, c.d, e, f.g); string values are templates mentioning later pool keys (acyclic), unknown keys, defaults, repeated mentions, unterminated placeholders, defaults containing placeholders, look-alike keys and default forms before a plain mention, adjacent placeholders (unknown first), placeholder-like noise, a closing brace before the first placeholder; resolvers built from builders that are re-configured afterwards; impact analysis also through a document set changed between two calls on one analysis object; plus ints/bools/plain strings. kinds: dependency (source + 0-2 reference overlays; 20 repeated runs must give equal reports; AllKeys = OrphanKeys ⊎ keys(Map)), placeholder (key filters: all / prefix c / not a; 20 repeated runs), impact (requested key subsets incl. an unknown key). Sorted fields compared exactly, coordinate lists as multisets. Non-trivial: some value mentions >= 2 keys. Distinct by Gallina term.",
 		Gen: func(r *rand.Rand, tier string, idx int) Case {
 			switch idx % 3 {
 			case 0:
